@@ -224,8 +224,17 @@ def write_bams(sc, genome, outdir, prefix="reads", order=None):
     nfiles = sc.get("nfiles", 1)
     paths = []
     fnames = sc.get("file_names")
+    all_names = names
     for fi in range(nfiles):
         recs = [(k, r) for k, r in enumerate(sc["reads"]) if r.get("file", 0) == fi]
+        if sc.get("prune_headers"):
+            # the header of each file lists only the contigs the file has records on (per-chromosome BAM files, headers
+            # pruned by the tools that split them); the order of the reference is kept
+            used = set((r.get("c") or (r.get("placed") or [None])[0]) for _, r in recs)
+            names = [n for n in all_names if n in used] or all_names[:1]
+            lens_ = {c[0]: c[1] for c in sc["chroms"]}
+            header = {"HD": {"VN": "1.6", "SO": "coordinate"}, "SQ": [{"SN": n, "LN": lens_[n]} for n in names]}
+            idx = {n: i for i, n in enumerate(names)}
         tie = order or (lambda k, r: k)
         # an unmapped record may be "placed" (RNAME/POS set, SAM specification 1.4: unmapped mates, reads hanging over
         # a reference end): it sorts with the mapped records of that position
